@@ -12,6 +12,7 @@ import Vicut.Model.Text
 import Vicut.Model.Field
 import Vicut.Model.Undo
 import Vicut.Model.Search
+import Vicut.Model.ExRef
 
 open Lean Vicut
 
@@ -216,6 +217,59 @@ def opSearch (req : Json) : Json :=
     (cur', st', starts', out ++ [Json.num cur'])) (jnat req "cursor", {}, starts0, [])
   Json.mkObj [("cursors", Json.arr out.toArray)]
 
+def addrOf (j : Json) : Option Addr :=
+  match j with
+  | .arr #[.str "num", n] => some (.num (n.getNat?.toOption.getD 0))
+  | .arr #[.str "cur"] => some .cur
+  | .arr #[.str "last"] => some .last
+  | .arr #[.str "off", k] => some (.off (k.getInt?.toOption.getD 0))
+  | _ => none
+
+/-- `{"op":"exref","pieces":[[text,nl]..],"cur":line,"cmd":{"t":"s"|"d"|"gd"|"gs","a":addr,"b":addr,"rep":..,"g":..,"pol":..},
+"matches":[[text,[[s,e]..]]..],"ismatch":[[text,bool]..]}`: the reference result of one ex command. -/
+def opExRef (req : Json) : Json :=
+  let ps : List Piece := (jarr req "pieces").toList.map fun p =>
+    match p with
+    | .arr #[.str t, .bool nl] => ⟨t.toList, nl⟩
+    | _ => ⟨[], false⟩
+  let cmd := (req.getObjVal? "cmd").toOption.getD Json.null
+  let mtab : List (Str × List (Nat × Nat)) := (jarr req "matches").toList.map fun e =>
+    match e with
+    | .arr #[.str t, .arr ms] => (t.toList, ms.toList.map fun m =>
+        match m with
+        | .arr #[a, b] => (a.getNat?.toOption.getD 0, b.getNat?.toOption.getD 0)
+        | _ => (0, 0))
+    | _ => ([], [])
+  let itab : List (Str × Bool) := (jarr req "ismatch").toList.map fun e =>
+    match e with
+    | .arr #[.str t, .bool b] => (t.toList, b)
+    | _ => ([], false)
+  let matchesOf : Str → List (Nat × Nat) := fun t => ((mtab.find? (fun e => e.1 == t)).map (·.2)).getD []
+  let isMatch : Str → Bool := fun t => ((itab.find? (fun e => e.1 == t)).map (·.2)).getD false
+  let n := ps.length
+  let cur := jnat req "cur"
+  let a := addrOf ((cmd.getObjVal? "a").toOption.getD Json.null)
+  let b := addrOf ((cmd.getObjVal? "b").toOption.getD Json.null)
+  let t := jstr cmd "t"
+  let isGlobal := t == "gd" || t == "gs"
+  -- default range: current line for s/d/y, whole buffer for g
+  let range : Option (Nat × Nat) :=
+    match a, b with
+    | some a, some b => resolveRange n cur a b
+    | some a, none => (resolveLine n cur a).map (fun i => (i, i))
+    | _, _ => if isGlobal then (if n = 0 then none else some (0, n - 1)) else (resolveLine n cur .cur).map (fun i => (i, i))
+  let out : List Piece :=
+    match range with
+    | none => ps
+    | some (s, e) =>
+      match t with
+      | "s" => refSubst matchesOf (jstr cmd "rep").toList (jbool cmd "g") s e ps
+      | "d" => refDelete s e ps
+      | "gd" => refGlobalDelete isMatch (jbool cmd "pol") s e ps
+      | "gs" => refGlobalSubst isMatch (jbool cmd "pol") matchesOf (jstr cmd "rep").toList (jbool cmd "g") s e ps
+      | _ => ps
+  Json.mkObj [("text", J (renderPieces out))]
+
 def dispatch (req : Json) : Json :=
   match jstr req "op" with
   | "ping" => Json.mkObj [("pong", true)]
@@ -228,6 +282,7 @@ def dispatch (req : Json) : Json :=
   | "field" => opField req
   | "undo_machine" => opUndoMachine req
   | "search" => opSearch req
+  | "exref" => opExRef req
   | "global" => opGlobal req
   | op => Json.mkObj [("err", Json.str s!"unknown op {op}")]
 
